@@ -4,7 +4,7 @@ from . import obslib as O
 PROPERTY = "C08"
 DRIVER = "TraitsVerif/Driver/Obs.lean"
 PROPS_MODULES = ["TraitsVerif.Props.C08"]
-TRANSLATORS = ["obsl", "notl"]
+TRANSLATORS = ["obsl", "notl", "nodel"]
 RULE = ("histories over a pool of 3-5 interlinked HasTraits objects (value:Int, mate:Instance(tag), child:Instance "
         "with an optional dynamic default, ichild / nchild: Instance with comparison_mode identity / none, per-case "
         "value semantics: pool objects in the same `~class` of the header compare == although distinct, mate (tag=True) "
@@ -33,16 +33,17 @@ TRUSTED = ["`==` of two distinct pool objects is a PARAMETER of the model (Env.e
            "SOURCE TIE (translators obsl, notl; Model/ObsL.lean, Model/NotL.lean): _observe.py, apply_observers and the "
            "add_to/remove_from/equals methods of the two notifier classes are translated from their text on every run "
            "and the model is PROVED equal to their interpretation; what stays hand-written (= the runtime of the "
-           "interpreters) is the IObserver interface of a graph node (notify, iter_observables, iter_objects, "
-           "iter_extra_graphs, get_notifier, get_maintainer, graph.children - Model/ObsGraph.lean, generators evaluated "
-           "eagerly), the identity semantics of list.remove on notifier objects, and the identification of ==-equal "
-           "handlers / dispatchers with one model identifier; parameter defaults of the translated functions are not "
-           "part of the term (callers are translated with their explicit arguments)",
+           "interpreters) is: generators evaluated eagerly, graph.children, the TraitAddedObserver / "
+           "_RestrictedNamedTraitObserver rows of the node interface and the denotation of the NodeL primitives "
+           "(isinstance = heap cell kind, _trait(n, 2) = the observable, traits().items() = the field list, metadata "
+           "is not None = Field.tagged) - the IObserver methods of the five observer classes themselves are "
+           "translated (translator nodel, Model/NodeL.lean, C09_node_interface_is_source / C09_node_runtime_is_source) "
+           "and so is observer_change_handler (C08_maintain_is_source); the identity semantics of list.remove on notifier objects, and the identification of ==-equal "
+           "handlers / dispatchers with one model identifier (parameter defaults ARE part of the term)",
            "oracle = from-scratch path counting written in Python over the real objects (obslib.World.spec_walk)"]
 ASSUMPTIONS = ["`del obj.trait` is run with the notifier list of the trait in existence (trait._notifiers(True), as after "
                "any earlier registration on it): ctraits tests the list against NULL there, which the model's hooks do "
-               "not record; `del` is composed by the Lean DRIVER from the model's read and fire steps (Model.Obs.Mutation "
-               "has no delete constructor, so C08's theorems do not speak about it)",
+               "not record (stated at Model.Obs.Mutation.delField, whose `mutate` arm transcribes that branch)",
                "multi-pair update / multi-item set operands are not generated (one event with several entries has no "
                "counterpart among the model's mutations)",
                "dispatch='same' only; other dispatchers are modelled-not-verified",
